@@ -580,13 +580,13 @@ def newman_betweenness(A):
             # column s of T: potentials for unit current s -> t (V_t = 0)
             for s in range(t):
                 V = T[:, s]
-                I = np.zeros(m)
+                flow = np.zeros(m)
                 for (i, j) in edges:
                     c = abs(V[i] - V[j])
-                    I[i] += 0.5 * c
-                    I[j] += 0.5 * c
-                I[s] = I[t] = 1.0
-                tot += I
+                    flow[i] += 0.5 * c
+                    flow[j] += 0.5 * c
+                flow[s] = flow[t] = 1.0
+                tot += flow
         b = tot / (m * (m - 1) / 2.0)
         for idx, node in enumerate(comp):
             res[node] = float(m * b[idx])
@@ -712,18 +712,18 @@ def nsi_neighbors_degree(A):
 
 
 def nsi_local_clustering(A):
-    """Fraction of ordered pairs (j, l) of N+(i) x N+(i) linked in A+."""
+    """Fraction of ordered pairs (j, h) of N+(i) x N+(i) linked in A+."""
     P = plus(A)
     nb = out_nb(P)
-    return [sum(1 for j in nb[i] for l in nb[i] if P[j][l]) / len(nb[i]) ** 2
+    return [sum(1 for j in nb[i] for h in nb[i] if P[j][h]) / len(nb[i]) ** 2
             for i in range(len(A))]
 
 
 def nsi_transitivity(A):
     P = plus(A)
     nb = out_nb(P)
-    num = sum(1 for i in range(len(A)) for j in nb[i] for l in nb[i]
-              if P[j][l])
+    num = sum(1 for i in range(len(A)) for j in nb[i] for h in nb[i]
+              if P[j][h])
     den = sum(len(x) ** 2 for x in nb)
     return num / den
 
